@@ -1,6 +1,7 @@
 package props
 
 import (
+	"bytes"
 	"encoding/json"
 	"fmt"
 	"testing"
@@ -14,9 +15,11 @@ import (
 // C19: the 4 KiB-window writer never refers back more than 4096 bytes (32768 for the ordinary one).
 
 type C19Case struct {
-	Data gen.Recipe `json:"data"`
-	Set  WSetting   `json:"set"`
-	Ops  []gen.Op   `json:"ops"`
+	Data   gen.Recipe  `json:"data"`
+	Set    WSetting    `json:"set"`
+	Ops    []gen.Op    `json:"ops"`
+	Before *gen.Recipe `json:"before,omitempty"` // the Writer first compressed this (and was closed or abandoned), then Reset
+	Closed bool        `json:"closed,omitempty"`
 }
 
 var c19Dists = []int{4094, 4095, 4096, 4097, 4098, 32766, 32767, 32768, 32769, 32770, 65535, 65536, 65537, 2049, 3000, 4000, 8192, 8193, 16384, 20000, 30000, 40000}
@@ -85,12 +88,22 @@ func drawC19(t *rapid.T) C19Case {
 	}
 	c.Data = drawPlanted(t, max)
 	c.Ops = gen.DrawWriteOps(t, c.Data.Len(), true)
+	if rapid.IntRange(0, 3).Draw(t, "reuse") == 0 {
+		b := gen.DrawRecipe(t, 80<<10)
+		c.Before = &b
+		c.Closed = rapid.Bool().Draw(t, "closedbefore")
+	}
 	return c
 }
 
 func checkC19(c C19Case) (labels []string, nontrivial bool, err error) {
 	data := c.Data.Bytes()
-	z, err := runWriterOps(c.Set, data, c.Ops)
+	var z []byte
+	if c.Before != nil {
+		z, err = runWriterOpsReused(c.Set, c.Before.Bytes(), c.Closed, data, c.Ops)
+	} else {
+		z, err = runWriterOps(c.Set, data, c.Ops)
+	}
 	if err != nil {
 		return nil, false, err
 	}
@@ -118,6 +131,9 @@ func checkC19(c C19Case) (labels []string, nontrivial bool, err error) {
 	if ref.NumMatches == 0 {
 		labels = append(labels, "no-match-at-all")
 	}
+	if c.Before != nil {
+		labels = append(labels, "writer-reused-after-reset")
+	}
 	return labels, ref.MaxDist > w/2 || len(data) > 65536, nil
 }
 
@@ -144,4 +160,49 @@ func init() {
 		_, _, err := checkC19(c)
 		return err
 	}
+}
+
+// runWriterOpsReused: the Writer first writes `before` (then Close or nothing), is Reset onto a
+// new destination and then runs ops + Close on data. Returns the bytes of the second stream.
+func runWriterOpsReused(set WSetting, before []byte, closeFirst bool, data []byte, ops []gen.Op) (z []byte, err error) {
+	defer guardPanic(&err)
+	var first, dst bytes.Buffer
+	w, err := newFlateWriter(&first, set)
+	if err != nil {
+		return nil, err
+	}
+	guard := w.VerifGuard()
+	if _, e := w.Write(before); e != nil {
+		return nil, fmt.Errorf("first use: Write = %v", e)
+	}
+	if closeFirst {
+		if e := w.Close(); e != nil {
+			return nil, fmt.Errorf("first use: Close = %v", e)
+		}
+	}
+	w.Reset(&dst)
+	off := 0
+	for i, op := range ops {
+		switch op.K {
+		case "W":
+			n, e := w.Write(data[off : off+op.N])
+			if e != nil || n != op.N {
+				return nil, fmt.Errorf("op %d Write(%d bytes) = (%d, %v)", i, op.N, n, e)
+			}
+			off += op.N
+		case "F":
+			if e := w.Flush(); e != nil {
+				return nil, fmt.Errorf("op %d Flush = %v", i, e)
+			}
+		}
+	}
+	if e := w.Close(); e != nil {
+		return nil, fmt.Errorf("Close = %v", e)
+	}
+	if guard != nil {
+		if e := guard(); e != nil {
+			return nil, e
+		}
+	}
+	return dst.Bytes(), nil
 }
